@@ -8,7 +8,7 @@ id="$1"; n="$2"; tier="$3"; shift 3
 src="${SEED_BASE:-/tmp/wt}/$id/seeded/$n"
 dst="/verif/seeded/${SEED_PREFIX:-}$id-$n"
 wt="/tmp/mut/verify-${SEED_PREFIX:-}$id-$n"
-export CARGO_TARGET_DIR=/tmp/mut/target-shared CARGO_NET_OFFLINE=true
+export CARGO_TARGET_DIR=/tmp/mut/target-${LOOP:-shared} CARGO_NET_OFFLINE=true
 mkdir -p /tmp/mut "$dst"
 cp -r "$src"/* "$dst"/ 2>/dev/null
 git -C /repo worktree remove --force "$wt" >/dev/null 2>&1
